@@ -1,4 +1,8 @@
+(* runner <entry> <trace-file>: entries are registered by the cXX.ml files *)
 let () =
   match Array.to_list Sys.argv with
-  | _ :: "C17" :: path :: _ -> C17.run path
-  | _ -> prerr_endline "usage: runner <property> <trace>"; exit 2
+  | _ :: name :: path :: _ ->
+    (match Hashtbl.find_opt Conv.registry name with
+     | Some f -> f path
+     | None -> prerr_endline ("unknown runner entry " ^ name); exit 2)
+  | _ -> prerr_endline "usage: runner <entry> <trace>"; exit 2
